@@ -80,6 +80,9 @@ func (mm *MMapRWManager) WriteAt(b []byte, off int64) (n int, err error) {
 func (mm *MMapRWManager) ReadAt(b []byte, off int64) (n int, err error) {
 	if mm.m == nil {
 		return 0, ErrUnmappedMemory
+	} else if len(b) == 0 && off == int64(len(mm.m)) {
+		// reading nothing at the very end of the region (an empty value that ends the segment)
+		return 0, nil
 	} else if off >= int64(len(mm.m)) || off < 0 {
 		return 0, ErrIndexOutOfBound
 	}
